@@ -848,3 +848,32 @@ Proof.
   intros b il chain st v. unfold set_typed_model. destruct (accept_typed rx b il chain v); cbn; congruence.
 Qed.
 End WithRegex4.
+
+(** * 13. Unions of integer types *)
+Lemma in_unionb_iff ms z : in_unionb ms z = true <-> in_union ms z.
+Proof.
+  unfold in_unionb, in_union. rewrite existsb_exists. split; intros [m [Hin H]]; exists m; (split; [exact Hin|]).
+  - rewrite !andb_true_iff, !Z.leb_le, in_restrb_iff in H. tauto.
+  - rewrite !andb_true_iff, !Z.leb_le, in_restrb_iff. tauto.
+Qed.
+
+(** without member restrictions the conversion IS the membership test *)
+Lemma union_unrestricted ms z :
+  union_accept (map (fun k => (k, None)) ms) z = Accepted <-> in_union (map (fun k => (k, None)) ms) z.
+Proof.
+  unfold union_accept.
+  assert (L : union_loads (map (fun k => (k, @None text)) ms) = true).
+  { unfold union_loads. apply forallb_forall. intros m Hm. apply in_map_iff in Hm.
+    destruct Hm as [k [<- _]]. reflexivity. }
+  rewrite L. rewrite <- in_unionb_iff. unfold in_unionb.
+  assert (E : existsb (fun m : ikind * option text => in_kind (fst m) z) (map (fun k => (k, None)) ms) =
+              existsb (fun m : ikind * option (list alt) =>
+                         (kind_min (fst m) <=? z) && (z <=? kind_max (fst m)) &&
+                         in_restrb (kind_min (fst m), 0%nat) (kind_max (fst m), 0%nat) (z, 0%nat) (snd m))
+                      (map (fun k => (k, None)) ms)).
+  { clear L. induction ms as [|k tl IH]; [reflexivity|]. cbn [map existsb fst snd in_restrb]. rewrite IH. unfold in_kind. rewrite andb_true_r. reflexivity. }
+  rewrite <- E. destruct (existsb _ _); split; congruence.
+Qed.
+
+Lemma union_no_panic ms z : union_accept ms z <> Panicked.
+Proof. unfold union_accept. destruct (union_loads ms); [destruct (existsb _ ms)|]; discriminate. Qed.
